@@ -105,15 +105,27 @@ def load_world(crate, logdir=None):
 # ------------------------------------------------------------------------------------------------------
 # native replay runtime: a generated binary crate that calls the real functions
 # ------------------------------------------------------------------------------------------------------
+def crate_obligations(crate):
+    """All obligations (thorough tier) of every props file whose CRATE is `crate`: one replay binary per
+    crate, so that switching between properties does not rebuild it."""
+    out = []
+    for f in sorted(os.listdir(os.path.join(HERE, "props"))):
+        if re.match(r"^C\d+\.py$", f):
+            pm = load_props(f[:-3])
+            if pm.CRATE == crate:
+                out += [(f[:-3], o) for o in pm.obligations("thorough")]
+    return out
+
+
 class Native:
-    def __init__(self, crate, obligations, logdir=None):
+    def __init__(self, crate, logdir=None):
         self.crate = crate
         self.dir = os.path.join(TARGET, "mir-replay", crate)
         self.tdir = os.path.join(TARGET, "mir-replay-target" + ("-verifcfg" if CRATES[crate].get("rustflags") else ""))
         self.logdir = logdir
         self.obls = {}
-        for o in obligations:
-            self.obls.setdefault(o.key, o)
+        for prop, o in crate_obligations(crate):
+            self.obls.setdefault(f"{prop}:{o.key}", o)
         self.built = False
         self.err = None
 
@@ -167,7 +179,7 @@ class Native:
         open(path, "w").write(txt)
 
     def run(self, key, values):
-        """-> {'view': {...}} | {'panic': msg} | {'error': msg}"""
+        """key = "<prop>:<obligation key>"  -> {'view': {...}} | {'panic': msg} | {'error': msg}"""
         if not self.build():
             return {"error": "replay crate does not build: " + (self.err or "")[-500:]}
         o = self.obls[key]
@@ -326,6 +338,23 @@ class Runner:
                 counts["ok"] += 1
                 if expect == "sat" and model:
                     rec["witness"] = {n: model.get(n) for n in in_names}
+                if kind == "cover" and model:
+                    # translator validation on the solver's own witness: the encoded result for these
+                    # inputs must be what the real code returns natively
+                    self.res["queries"] += 1
+                    inputs = {n: model[n] for n in in_names}
+                    inputs.update(ob.fixed)
+                    enc_view = {k: model[values[len(in_names) + j]] for j, k in enumerate(view_keys)}
+                    nat = self.native.run(f"{self.prop}:{ob.key}", inputs)
+                    same = "view" in nat and all(enc_view.get(k) == v for k, v in nat["view"].items()) and \
+                        ("some" not in enc_view or enc_view["some"] == nat["view"].get("some"))
+                    if same:
+                        self.res["discharged"] += 1
+                        rec["native_agrees"] = True
+                    else:
+                        self.inconclusive(f"{ob.name}/{label}: encoding and native run disagree on the cover witness: "
+                                          f"inputs={inputs} encoded={enc_view} native={nat}")
+                        rec["native_agrees"] = False
                 if kind in ("twin",) or (counts["ok"] <= 2):
                     self.sample(**rec)
                 return model if expect == "sat" else True
@@ -366,7 +395,7 @@ class Runner:
                 self.res["queries"] += 1
                 inputs = {n: model[n] for n in in_names}
                 inputs.update(ob.fixed)
-                nat = self.native.run(ob.key, inputs)
+                nat = self.native.run(f"{self.prop}:{ob.key}", inputs)
                 good = False
                 if "view" in nat:
                     cl = dict(concrete_clauses(ob, ob.wrong, inputs, nat["view"]))
@@ -378,7 +407,7 @@ class Runner:
                 else:
                     self.inconclusive(f"{ob.name}/{lab}: model of the wrong-spec twin does not replay natively: {nat}")
         self.sample(engine="mir2smt", obligation=ob.name, kind="summary", function=enc.item.name,
-                    queries_ok=counts["ok"], queries_bad=counts["bad"], panics_checked=len(ex.panics),
+                    notes=ob.notes, queries_ok=counts["ok"], queries_bad=counts["bad"], panics_checked=len(ex.panics),
                     wall_s=round(time.time() - t0, 2))
 
     def handle_cex(self, ob, enc, kind, label, model, in_names, view_keys, values, clause_fn, rec):
@@ -386,7 +415,7 @@ class Runner:
         inputs = {n: model[n] for n in in_names}
         inputs.update(ob.fixed)
         enc_view = {k: model[values[len(in_names) + j]] for j, k in enumerate(view_keys)}
-        nat = self.native.run(ob.key, inputs)
+        nat = self.native.run(f"{self.prop}:{ob.key}", inputs)
         reproduced = None
         why = ""
         if "error" in nat:
@@ -448,12 +477,16 @@ def setup():
         except Exception as e:
             log(f"setup: mir2smt MIR dump of {crate} FAILED: {e}")
             rc = 1
+    done = set()
     for f in sorted(os.listdir(os.path.join(HERE, "props"))):
         if re.match(r"^C\d+\.py$", f):
             pm = load_props(f[:-3])
-            n = Native(pm.CRATE, pm.obligations("thorough"))
+            if pm.CRATE in done:
+                continue
+            done.add(pm.CRATE)
+            n = Native(pm.CRATE)
             ok = n.build()
-            log(f"setup: mir2smt replay crate for {f[:-3]} ({pm.CRATE}): {'ok' if ok else 'FAILED'}")
+            log(f"setup: mir2smt replay crate for {pm.CRATE}: {'ok' if ok else 'FAILED'}")
             if not ok:
                 log(n.err)
                 rc = 1
@@ -477,7 +510,7 @@ def run_property(prop, tier, logdir, seed=0, only=None):
         return empty
     log(f"  E2: MIR of {pm.CRATE} dumped in {world.dump_s:.0f}s ({world.mir_lines} lines, sha {world.mir_sha}); "
         f"{len(obligations)} obligations, tier {tier}")
-    native = Native(pm.CRATE, pm.obligations("thorough"), logdir)
+    native = Native(pm.CRATE, logdir)
     r = Runner(prop, tier, logdir, world, native, obligations)
     try:
         for k, ob in enumerate(obligations):
@@ -512,8 +545,8 @@ def replay(path):
         pm = load_props(d["property"])
         allobs = pm.obligations("thorough")
         ob = [o for o in allobs if o.name == d["obligation"]][0]
-        native = Native(pm.CRATE, allobs)
-        nat = native.run(ob.key, d["inputs"])
+        native = Native(pm.CRATE)
+        nat = native.run(f"{d['property']}:{ob.key}", d["inputs"])
         log(f"  replay {d['obligation']} / {d['label']}: inputs={d['inputs']} native={nat}")
         if "error" in nat:
             return None
